@@ -211,6 +211,8 @@ def main(tier, seed, replay=None):
     for i, c in enumerate(cases):
         c["id"] = i
     results = run_harness(binp, "scenario", cases, workdir, timeout_ms=10000)
+    cases, results, nrel = with_release("scenario", cases, results, workdir, timeout_ms=10000)
+    run.coverage["release_profile_cases_differing_from_dev"] = nrel
     # the property's own predicate on every case (independent of the model)
     for c, r in zip(cases, results):
         d = predicate(c, r)
